@@ -139,6 +139,16 @@ def dup_lists():
                     c = core.default_cfg(type=4, timing=[("W", wa, time_of(a[0], a[1])), ("W", wb, time_of(b[0], b[1]))])
                     out.append([("INIT", 0, 0, "linear", now, []), ("CALL", ("SCHED", c), []),
                                 ("NOW", now + 15 * D), ("EXEC", False, None), ("EXEC", False, None)])
+    # weekly entries whose times of day coincide in UTC (the same instant of the week, or the same clock reading one
+    # day apart, depending on the weekdays): the duplicate check must separate exactly these
+    for a in ents:
+        for b in ents:
+            if (a[0] - a[1]) % D != (b[0] - b[1]) % D:
+                continue
+            for wa, wb in ((0, 0), (0, 1), (1, 0), (0, 6), (6, 0), (3, 3), (3, 4), (4, 3)):
+                c = core.default_cfg(type=4, timing=[("W", wa, time_of(a[0], a[1])), ("W", wb, time_of(b[0], b[1]))])
+                out.append([("INIT", 0, 0, "linear", now, []), ("CALL", ("SCHED", c), []),
+                            ("NOW", now + 15 * D), ("EXEC", False, None), ("EXEC", False, None)])
     return out
 
 
